@@ -27,10 +27,10 @@ Proof. exact reordering_attributes_permutes_the_collected. Qed.
 
 Example c14_translated_example :
   s_messages (finish (fold_left step
-     [ {| a_path := ["sv"; "messages"]; a_content := IsList true (VStr "a as A"); a_msg_type := "" |};
-       {| a_path := ["sv"; "error"]; a_content := IsList true (VStr "E"); a_msg_type := "" |};
-       {| a_path := ["sv"; "messages"]; a_content := IsList false (VStr "syntax error"); a_msg_type := "" |};
-       {| a_path := ["sv"; "messages"]; a_content := IsList true (VStr "b as B"); a_msg_type := "" |} ] init)) =
+     [ {| a_path := ["sv"; "messages"]; a_content := IsList true (VStr "a as A"); a_msg_type := ""; a_resp := none |};
+       {| a_path := ["sv"; "error"]; a_content := IsList true (VStr "E"); a_msg_type := ""; a_resp := none |};
+       {| a_path := ["sv"; "messages"]; a_content := IsList false (VStr "syntax error"); a_msg_type := ""; a_resp := none |};
+       {| a_path := ["sv"; "messages"]; a_content := IsList true (VStr "b as B"); a_msg_type := ""; a_resp := none |} ] init)) =
   [VStr "a as A"; VStr "b as B"].
 Proof. vm_compute. reflexivity. Qed.
 
